@@ -29,6 +29,18 @@ def run(ctx, replay):
         e = events[i - 1]
         rec = dict(kind="panic" if e["panic"] else "wrong-value", len=e["len"], align=e["pos"] % 8, cls=e["cls"])
         ctx.violation(rec, dict(event=e))
+    # the same cases in a 32-bit build of the library (int and uint are 32 bits wide there)
+    # and as a static binary in an empty root directory (no time zone database, no environment)
+    variants = [] if replay else [("GOARCH=386", ctx.trace_32bit(["c14"], trace)), ("static binary in an empty root directory", ctx.trace_bare(["c14"], trace))]
+    for build, tv in variants:
+        if not tv:
+            continue
+        evv = vlib.read_ndjson(tv)
+        resv = ctx.tlc_trace("C14_Trace", "C14_Trace.cfg", tv)
+        ctx.traces += 1
+        for i in resv["bad"]:
+            e = evv[i - 1]
+            ctx.violation(dict(kind="other-build-or-environment", len=e["len"], align=e["pos"] % 8, cls=e["cls"]), dict(event=e, build=build))
     return ctx.finish(
         level="model_checking",
         rule="one case = (buffer, bit position, width); structured enumeration over alignment x width x "
